@@ -172,6 +172,8 @@ def run():
             ('ObserveOn', 'NItems = 2\n Ending = "e"\n WithUnsub = FALSE\n ErrorDirect = TRUE', 'INVARIANTS OrderOK OnWorker', 'O'),
             ('SubscribeOn', 'NItems = 2\n Completes = FALSE\n WithUnsub = TRUE\n HookInJob = TRUE', 'PROPERTY WorkerExits', 'WorkerExits'),
             ('Debounce', 'D = 100\n Gaps = {40, 260}\n MaxEvents = 3\n ReadNotTake = TRUE', 'INVARIANTS InOrderNoneTwice', 'InOrderNoneTwice'),
+            ('SampleConc', 'NItems = 2\n NTicks = 2\n Completes = TRUE\n ReadNotTake = TRUE\n TwoStepTake = FALSE', 'INVARIANTS InOrderNoneTwice', 'InOrderNoneTwice'),
+            ('SampleConc', 'NItems = 2\n NTicks = 2\n Completes = TRUE\n ReadNotTake = FALSE\n TwoStepTake = TRUE', 'INVARIANTS FreshIsInSlot', 'FreshIsInSlot'),
             ('RefCountConc', 'Leavers = {1, 2}\n Stayers = {3}\n Recheck = FALSE', 'INVARIANTS PresentMeansConnected', 'PresentMeansConnected'),
             ('ZipConc', 'NInputs = 2\n NItems = 2\n EmitUnderLock = FALSE', 'INVARIANTS RowsInOrder', 'RowsInOrder'),
             ('SubjectConc', 'Kind = "replay"\n NValues = 2\n WithUnsub = FALSE', 'INVARIANTS NoDup', 'NoDup'),
